@@ -40,6 +40,7 @@ func (t *Tracer) Emit(ev string, kv ...interface{}) int {
 	}
 	t.n++
 	e["n"] = t.n
+	e["ts"] = time.Now().UnixNano()
 	t.events = append(t.events, e)
 	atomic.StoreInt64(&t.last, time.Now().UnixNano())
 	return t.n
